@@ -262,6 +262,10 @@ class AsyncHTTP11Connection(AsyncConnectionInterface):
                 self._h11_state.our_state is h11.DONE
                 and self._h11_state.their_state is h11.DONE
                 and not self._request_write_failed
+                # Bytes that the server sent beyond the end of the response are
+                # not an answer to anything. Whatever they are, the next request
+                # on this connection would be handed them as its response.
+                and not self._h11_state.trailing_data[0]
             ):
                 self._state = HTTPConnectionState.IDLE
                 self._h11_state.start_next_cycle()
